@@ -265,6 +265,16 @@ def gen_case(rng, family, renames):
         g2 = g
     if rng.random() < 0.3:
         prefix_names(rng, g2)
+    if not renames and rng.random() < 0.08:
+        # a top-level node whose NAME spells the hierarchical id of a nested node the way Mermaid writes it ("w1__b" next to w1/b)
+        conts = [n for n in g2["nodes"] if n["kind"] == "graph" and n["graph"]["nodes"]]
+        outs = [o for n in g2["nodes"] for o in gen.iface(n)[1]]
+        if conts and outs:
+            c = rng.choice(conts)
+            nm = f"{c['name']}__{rng.choice(c['graph']['nodes'])['name']}"
+            if nm not in [n["name"] for n in g2["nodes"]]:
+                g2["nodes"].append({"name": nm, "kind": "func", "inputs": [rng.choice(outs)], "outputs": [nm + "_o"], "emit": [], "wait_for": [], "defaults": {},
+                                    "fn": ["sym", nm]})
     if rng.random() < 0.4:
         # some external inputs bound on the top-level graph (drawn as inputs all the same, next to unbound ones)
         produced = {o for n in g2["nodes"] for o in gen.iface(n)[1]}
